@@ -7,12 +7,15 @@ from .common import *
 from .wire import *
 from .world import St
 from . import handler_common as HC
-from mirse.models.bytesm import Buf, Rope, VTerm, WIRE, vnum, visnum, vutf8
+from mirse.models.bytesm import Buf, Rope, VTerm, WIRE, Val, vnum, visnum, vutf8
 
 OPCODE_OF = {'Get': 0x00, 'Set': 0x01, 'Add': 0x02, 'Replace': 0x03, 'Delete': 0x04, 'Increment': 0x05, 'Decrement': 0x06,
              'Flush': 0x08, 'GetQuietly': 0x09, 'GetKey': 0x0c, 'GetKeyQuietly': 0x0d, 'Append': 0x0e, 'Prepend': 0x0f,
              'SetQuietly': 0x11, 'AddQuietly': 0x12, 'ReplaceQuietly': 0x13, 'DeleteQuiet': 0x14, 'IncrementQuiet': 0x15,
              'DecrementQuiet': 0x16, 'FlushQuietly': 0x18, 'AppendQuietly': 0x19, 'PrependQuietly': 0x1a}
+CMD_OF = {'Set': 'set', 'SetQuietly': 'set', 'Add': 'add', 'AddQuietly': 'add', 'Replace': 'replace', 'ReplaceQuietly': 'replace',
+          'Append': 'append', 'AppendQuietly': 'append', 'Prepend': 'prepend', 'PrependQuietly': 'prepend',
+          'Increment': 'increment', 'IncrementQuiet': 'increment', 'Decrement': 'decrement', 'DecrementQuiet': 'decrement'}
 FAMILIES = {'store': SET_FAMILY, 'concat': APPEND_FAMILY, 'get': GET_FAMILY, 'counter': INCDEC_FAMILY,
             'delete': DELETE_FAMILY, 'flush': FLUSH_FAMILY}
 
@@ -95,6 +98,33 @@ def wire_roundtrip(ck, tier, families=('store', 'concat', 'get', 'counter')):
                 ck.obligation(f'{tag}: the store is addressed with exactly the key bytes of the frame', pc,
                               z3.And(kok) if kok else z3.BoolVal(False), {}, on_key, small)
             r = HC.RespView(E, x.data) if x.data is not None else None
+            # the outcome class (ok / not found / key exists / non-numeric) is the reference model's for the command this OPCODE
+            # names, with the request fields read off the frame; a quiet opcode is silent exactly on success
+            base_cmd = CMD_OF.get(v)
+            if base_cmd is not None:
+                from .spec import expect
+
+                class WireIn:
+                    pass
+                wi = WireIn()
+                wi.cas = H.cas
+                wi.val = z3.Const('wire_value', Val)
+                if base_cmd in ('increment', 'decrement'):
+                    wi.delta, wi.init, wi.ttl, wi.flags = be(24, 8), be(32, 8), be(40, 4), BV(0, 32)
+                elif base_cmd in ('set', 'add', 'replace'):
+                    wi.flags, wi.ttl = be(24, 4), be(28, 4)
+                else:
+                    wi.flags, wi.ttl = BV(0, 32), BV(0, 32)
+                ex = expect(base_cmd, 0, st, wi)
+                kind16 = z3.ZeroExt(8, ex.kind)
+                spec_ok = z3.Not(ex.unspec)
+                if r is not None:
+                    cond = r.status == kind16
+                    if v.endswith(('Quietly', 'Quiet')):
+                        cond = z3.And(cond, kind16 != 0)
+                    ck.obligation(f'{tag}: the outcome class of {base_cmd} is the specified one (status of the response)', pc, z3.Implies(spec_ok, cond), {}, on_w, small)
+                else:
+                    ck.obligation(f'{tag}: quiet {base_cmd} is silent only on success', pc, z3.Implies(spec_ok, kind16 == 0), {}, on_w, small)
             post = x.post[0]
             other = x.post[1]
             if v not in ('Flush', 'FlushQuietly'):
